@@ -1075,10 +1075,13 @@ def minimise_set(s, cls, tier, extra=None):
 def _min_job(args):
     s, cls, detail, extra, tier, seed = args
     set_min_budget()
-    try:
-        m, ok = minimise_set(s, cls, tier, extra)
-    except HarnessError:
+    if is_known_signature(PROP, signature_of(cls, s, detail)):
         m, ok = s, False
+    else:
+        try:
+            m, ok = minimise_set(s, cls, tier, extra)
+        except HarnessError:
+            m, ok = s, False
     record = {"engine": "detsim", "set": encode_set(m), "tier": tier, "run_seed": "%s-%s" % (sha(s["id"]), cls),
               "observed": {"class": cls, "detail": detail, "extra": extra}, "minimised": ok}
     sig = cls
